@@ -19,6 +19,8 @@ SPEC = {
         "check of emit.rs by the translator (emit_lookup_common, emit_for_in_map, MatchesMany)",
         "f64 arithmetic of the percentage quantifier is Coq's SpecFloat (IEEE-754 binary64, round-to-nearest-even); the no-trap bound for percentages is proved on the "
         "exact value ceil(n*q/100), the f64 model is compared with the implementation case by case",
+        "the known-findings allow list for host arguments is empty since the fix: commits fd32d03a / e7c1d7b6 / 28418b65 / de219399 (theorem no_runtime_exceptions); "
+        "a percentage whose required count saturates makes the loop run until the scan timeout: Err(Timeout) is a documented outcome (scanner timeout 1 s in the harness)",
         "a WASM trap is named (div_s / trunc_f64_s) from the operand values the harness evaluated, because the panic message of eval_conditions carries only an anonymous backtrace",
     ],
     "trusted_base": [
@@ -98,8 +100,10 @@ MANIFEST = {
                    "arithmetic, guards, lookups) are regenerated from the Rust source on every run; an interval analysis over that table is proved sound (an accepted "
                    "argument cannot panic for ANY value of its type, both overflow-check profiles) and is re-evaluated: it must accept every argument that is not emitter-controlled "
                    "or a recorded finding. (2) The integer instructions emit.rs emits that can trap (i64.div_s, i64.rem_s, shifts) are modelled with the guards regenerated from "
-                   "emit.rs; arbitrary nested integer arithmetic over run-time values is proved trap-free except i64::MIN \\ -1; the percentage quantifier's i64.trunc_f64_s is "
-                   "modelled with IEEE-754 (SpecFloat). (3) Refutation witnesses for the unguarded cases are proved in the model and re-found on the implementation. "
+                   "emit.rs (zero divisor -> undefined, divisor -1 -> `0 - lhs`, shift count compared with 64); arbitrary nested integer arithmetic over run-time values is proved "
+                   "trap-free; the percentage quantifier's conversion (saturating since 28418b65; the trapping i64.trunc_f64_s is modelled with IEEE-754 SpecFloat) cannot trap. "
+                   "(3) The defects repaired so far (pat_range_match unwrap, i64::MIN \\ -1, percentage trunc, math.abs / hash / console overflow) are refuted as literal shapes, "
+                   "and their reproductions stay in the harness corpus: a regression is a VIOLATION with a replay. "
                    "The model's crash / no-crash prediction is compared with the real scanner on generated accepted rule sets with boundary run-time integers, in child processes, "
                    "through in-memory, file, block mode and the C API, with a reuse scan on the same scanner."),
     "level_note": ("PARTIAL: memory safety of unsafe code, stack depth and allocation bounds are observed in child processes (RLIMIT_AS 8 GiB, alarm + hard wall-clock limit, "
